@@ -27,6 +27,8 @@ RECURSION_EXEMPT = {
 
 
 def run(prog, rep):
+    from rules import keycmp
+    keycmp.check_reflexive(prog, rep, 'R2.11')
     from rules import definite_init
     definite_init.check(prog, rep, 'R2.10')
     from rules import encoded_reader
